@@ -185,9 +185,13 @@ def apply_annotations(fn, ann: Dict[str, Any], shared: Dict[str, Any], m: Dict[s
         if ann.get('servers'):
             kw['servers'] = [openrpc.Server(name='main', url='https://example.org/api')]
         if ann.get('params_schema'):
-            kw['params_schema'] = [openrpc.ContentDescriptor(name=n, schema={'type': 'integer'}, required=True) for n in names]
+            # hand-written descriptors, some leaving `required` to the library; they are user objects like any other
+            kw['params_schema'] = [openrpc.ContentDescriptor(name=n, schema={'type': 'integer'}, **({'required': True} if i % 2 else {}))
+                                   for i, n in enumerate(names)]
+            shared.setdefault('user_lists', []).append(kw['params_schema'])
         if ann.get('result_schema'):
             kw['result_schema'] = openrpc.ContentDescriptor(name='result', schema={'type': 'string'})
+            shared.setdefault('user_lists', []).append([kw['result_schema']])
         openrpc.annotate(**kw)(fn)
 
 
